@@ -1,5 +1,6 @@
 #!/bin/bash
 # Runs every seeded change under /verif/seeded against the quick check of its property
+# (and, if that stays silent, of the properties listed under "cross_check" in its meta.json)
 # and writes seeded/RESULTS.md (caught / missed; negative controls must stay silent).
 cd /verif
 out=seeded/RESULTS.md
@@ -9,10 +10,18 @@ for d in seeded/*/; do
   id=$(basename $d); [ -f $d/patch.diff ] || continue
   if [ -n "$1" ] && [[ "$id" != $1* ]]; then continue; fi
   prop=$(python3 -c "import json;print(json.load(open('$d/meta.json'))['property'])")
+  cross=$(python3 -c "import json;print(' '.join(json.load(open('$d/meta.json')).get('cross_check',[])))")
   exp=VIOLATION; case $id in neg-*) exp=OK;; esac
   res=$(tools/try_seed.sh $prop /verif/$d/patch.diff)
-  rules=$(echo "$res" | grep "^FINDING" | grep -o "rule=R[0-9.]*" | sort -u | tr '\n' ' ')
+  by=$prop
+  if ! echo "$res" | grep -q "^VIOLATION"; then
+    for cp in $cross; do
+      res2=$(tools/try_seed.sh $cp /verif/$d/patch.diff)
+      if echo "$res2" | grep -q "^VIOLATION"; then res="$res2"; by="$cp (cross-check)"; break; fi
+    done
+  fi
+  rules=$(echo "$res" | grep "^FINDING" | grep -o "rule=R[0-9.a-z]*" | sort -u | tr '\n' ' ')
   verdict=$(echo "$res" | grep -q "^VIOLATION" && echo VIOLATION || (echo "$res" | grep -q "^OK" && echo OK || echo ERROR))
-  echo "| $id | $prop | $exp | $verdict | $rules |" >> $out
-  echo "$id $prop expected=$exp got=$verdict $rules"
+  echo "| $id | $by | $exp | $verdict | $rules |" >> $out
+  echo "$id $by expected=$exp got=$verdict $rules"
 done
